@@ -159,7 +159,10 @@ pub fn case_mode(ctx: &mut Ctx, xml: &str, fragment: bool, ex: &Expect) {
                             }
                             Some(Ok(d2)) => {
                                 if !xot.deep_equal(doc, d2) {
-                                    ctx.fail("C03", "reparse-differs", "the serialisation reparses to a different tree", entry, xml);
+                                    // an undecoded URI is escaped once more by the serializer
+                                    let undecoded = vocab.namespaces.iter().any(|n| n.0.contains('&'));
+                                    let sig = if undecoded { "reparse-differs-namespace-uri-not-decoded" } else { "reparse-differs" };
+                                    ctx.fail("C03", sig, "the serialisation reparses to a different tree", entry, xml);
                                 } else {
                                     ctx.sink.stat("reparse.equal");
                                 }
@@ -685,6 +688,16 @@ pub fn run(seed: u64, count: usize, tier: &str, sink: &mut Sink) {
         let mut x = Xot::new();
         let v = Vocab::standard(&mut x);
         ctx.sink.emit(v.wire(), "ok".to_string());
+    }
+    if let Ok(inp) = std::env::var("BUILD_INPUT") {
+        // replay of one input: `BUILD_INPUT=s:3c.61.2f.3e xotharness build 1 0 quick`
+        for one in inp.split(',') {
+            if let Some(s) = crate::common::dec(one) {
+                case(&mut ctx, &s, &Expect { rendered: None, fault: None });
+            }
+        }
+        ctx.flush();
+        return;
     }
     for s in CORPUS {
         ctx.sink.stat("input.corpus");
